@@ -371,6 +371,22 @@ def _enumerate(interp, args, kwargs):
         m, _ = args[0].cls.lookup("__iter__")
         if m is not None:
             args = [interp.call(BoundMethod(m, args[0]), [], {})] + list(args[1:])
+    if items is None and isinstance(args[0], GhostVal):
+        src0 = args[0]
+        try:
+            ln = src0.pv_len()
+        except OutOfSubset:
+            ln = None
+        if ln is not None:
+            # (i, src[i]) for an arbitrary position i: index and element belong together
+            def fac0():
+                i = z3.Int(CTX.fresh_name("enum_i"))
+                CTX.assume(z3.And(i >= 0, i < _zint(ln)))
+                return (SInt(i), src0.pv_getitem(SInt(i)))
+            return AbstractSeq(fac0, "enumerate", length=ln)
+        r = src0.pv_iter()
+        if isinstance(r, AbstractSeq):
+            args = [r] + list(args[1:])
     if items is None:
         if isinstance(args[0], AbstractSeq):
             src = args[0]
@@ -719,6 +735,10 @@ class _Chain:
 
 
 def _deepcopy(v):
+    if isinstance(v, GhostVal):
+        if hasattr(v, "pv_deepcopy"):
+            return v.pv_deepcopy()
+        raise OutOfSubset("deepcopy of ghost value %s" % type(v).__name__)
     if isinstance(v, VList):
         if v.is_concrete():
             return VList([_deepcopy(x) for x in v.items])
